@@ -99,6 +99,7 @@ func goatParked(snap *quiesce.Snapshot) []string {
 // finish closes the bed and checks hygiene; leftover goat goroutines retire
 // the child so that they cannot disturb later cases.
 func finish(tier string, b *bed.Bed, h *bed.Hooks, res *core.Result) (left []*quiesce.G) {
+	quiet(tier) // let replies that are on their way reach the wire before the connection is torn down
 	b.Close()
 	left, final := bed.Hygiene(watchdog(tier))
 	bed.Uninstall()
